@@ -9,7 +9,7 @@ become `let`s; helper-local variables and closures are renamed apart)."""
 import copy
 
 from . import facts as F
-from .facts import walk, strip, peel, resolved, ARRAY
+from .facts import walk, strip, peel, resolved, callee, ARRAY
 
 # functions the rules refer to by (canonical) name are kept as calls
 NEVER_INLINE = ("backward", "propagate_consumers", "flatten_to", "with_children", "with_backward_op", "sliced_op", "op",
@@ -497,6 +497,86 @@ def normalise_while_let(root):
 _CACHE = {}
 
 
+def option_combinators_to_matches(view, root):
+    """`o.map(|x| B).unwrap_or(D)`, `o.map_or(D, |x| B)` and `o.map_or_else(|| D, |x| B)` with closure literals are the match
+    `match o { Some(x) => B, None => D }`: rewritten in place so that the engine rules read one form (D is evaluated before the test
+    in the first two forms; for the reading rules - which value reaches which slot under which condition - that does not matter)."""
+    OPT = "core::option::Option::<T>::"
+    n_done = 0
+
+    def closure_parts(e, n_params):
+        c0 = strip(e)
+        if not isinstance(c0, dict) or c0.get("k") != "Closure":
+            return None
+        cb = view.body(c0["closure"])
+        if cb is None or view.root(cb) is None or not closure_policy(view, cb):
+            return None
+        ps = [p_ for p_ in view.params(cb) if p_.get("pat")]
+        if len(ps) != n_params:
+            return None
+        view._counter += 1
+        suffix = "@%d" % view._counter
+        subst = {}
+        for x_ in walk(view.root(cb)):
+            if x_.get("k") == "UpvarRef":
+                subst.setdefault(x_["v"], x_["v"])
+        body = _rename_tree(view, view.root(cb), suffix, subst)
+        if any(x.get("k") == "Return" for x in walk(body)):
+            if not eliminate_returns(body):
+                return None
+        pats = [_rename_tree(view, p_["pat"], suffix, subst) for p_ in ps]
+        return pats, body
+
+    def make(o, some_pat, some_body, none_body, call):
+        oty = strip(o).get("ty") or ""
+        return {"k": "Match", "ty": call.get("ty"), "sp": call.get("sp"), "scrutinee": o, "source": "OptionCombinator", "arms": [
+            {"pat": {"ty": oty, "k": "Variant", "adt": "core::option::Option", "variant": "Some", "subs": [{"field": "0", "idx": 0, "pat": some_pat}]}, "guard": None, "body": some_body},
+            {"pat": {"ty": oty, "k": "Variant", "adt": "core::option::Option", "variant": "None", "subs": []}, "guard": None, "body": none_body}]}
+
+    def rewrite(x):
+        nonlocal n_done
+        if not isinstance(x, dict) or x.get("k") != "Call":
+            return None
+        cal = callee(x) or ""
+        a = x.get("args") or []
+        if cal == OPT + "unwrap_or" and len(a) == 2:
+            inner = strip(a[0])
+            if isinstance(inner, dict) and inner.get("k") == "Call" and callee(inner) == OPT + "map" and len(inner["args"]) == 2:
+                cp = closure_parts(inner["args"][1], 1)
+                if cp:
+                    return make(inner["args"][0], cp[0][0], cp[1], a[1], x)
+        if cal == OPT + "map_or" and len(a) == 3:
+            cp = closure_parts(a[2], 1)
+            if cp:
+                return make(a[0], cp[0][0], cp[1], a[1], x)
+        if cal == OPT + "map_or_else" and len(a) == 3:
+            cp, cd = closure_parts(a[2], 1), closure_parts(a[1], 0)
+            if cp and cd:
+                return make(a[0], cp[0][0], cp[1], cd[1], x)
+        return None
+
+    def visit(x):
+        nonlocal n_done
+        if isinstance(x, dict):
+            for k, v in list(x.items()):
+                if isinstance(v, dict):
+                    visit(v)
+                elif isinstance(v, list):
+                    for it in v:
+                        if isinstance(it, (dict, list)):
+                            visit(it)
+            new = rewrite(x)
+            if new is not None:
+                x.clear()
+                x.update(new)
+                n_done += 1
+        elif isinstance(x, list):
+            for it in x:
+                visit(it)
+    visit(root)
+    return n_done
+
+
 def engine_view(facts):
     """Facts view with the engine functions' private helpers inlined (memoised per fact set)."""
     if isinstance(facts, ViewFacts):
@@ -509,6 +589,7 @@ def engine_view(facts):
         if b.get("impl_self") == ARRAY and b.get("impl_trait_def") is None and b.get("name") in ("backward", "propagate_consumers"):
             nb = inline_body(view, b)
             if nb.get("thir"):
+                option_combinators_to_matches(view, nb["thir"]["root"])
                 propagate_place_aliases(view, nb["thir"]["root"])
                 normalise_while_let(nb["thir"]["root"])
     _CACHE.clear()
